@@ -708,6 +708,7 @@ def _peg_rules(body):
             while k < n and not (body[k]["t"] == "i" and body[k]["v"] == "rule") and not (body[k]["t"] == "i" and body[k]["v"] == "pub" and k + 1 < n and body[k + 1]["v"] == "rule"):
                 k += 1
             rules[name] = PegRule(name, line, body[j + 1 : k])
+            rules[name].header = "".join(str(x.get("v", "")) if x["t"] != "g" else x["d"] + "…" for x in body[i + 2 : j])
             i = k
         else:
             i += 1
